@@ -27,9 +27,13 @@ structure T1 where
   /-- ids whose verdict went out in the current step -/
   closed : Int → Bool := fun _ => false
   ok : Bool := true
+  /-- how many instances are live (C10: the figure every statistics reply must report) -/
+  n : Nat := 0
 
-def T1.put (t : T1) (id : Int) (i : Inst1) : T1 := { t with live := fun j => if j = id then some i else t.live j }
-def T1.close (t : T1) (id : Int) : T1 := { t with live := fun j => if j = id then none else t.live j }
+def T1.put (t : T1) (id : Int) (i : Inst1) : T1 :=
+  { t with live := fun j => if j = id then some i else t.live j, n := if (t.live id).isSome then t.n else t.n + 1 }
+def T1.close (t : T1) (id : Int) : T1 :=
+  { t with live := fun j => if j = id then none else t.live j, n := if (t.live id).isSome then t.n - 1 else t.n }
 def T1.fail (t : T1) : T1 := { t with ok := false }
 
 /-- one input line: announcements open, `D` / `T` close -/
